@@ -245,6 +245,9 @@ def build_modelrun():
         if not os.path.exists(os.path.join(COQ, "gen", "LocaleTables.v")):
             import gen_locale
             gen_locale.run()
+        if not os.path.exists(os.path.join(COQ, "gen", "Accesses.v")):
+            import gen_accesses
+            gen_accesses.run()
         if not os.path.exists(os.path.join(COQ, "gen", "LockTable.v")):
             import gen_locktable
             gen_locktable.run()
